@@ -41,7 +41,7 @@ func FuzzC20Text(f *testing.F) {
 			t.Fatalf("C20 violated (llama 3.2 BPE): %v", err)
 		}
 		c = c20Case{Family: "bpe-synth", Pre: []string{"llama3", "mistral3"}[(mode>>5)&1], AddBOS: bos, AddEOS: eos, Parts: parts, NMerges: nm,
-			Reverse: (mode>>6)&7 == 0}
+			Reverse: (mode>>6)&7 == 0, SpecialFirst: mode&0x8000 != 0}
 		if (mode>>9)&3 == 0 {
 			c.DropEvery = int((mode>>11)&3) + 1
 		}
